@@ -68,10 +68,11 @@ Record cmdst := mkCmd {
   c_eff : list effect; c_evs : list event;         (* effects / events channels *)
   c_atomic : option waker;       (* Arc<AtomicWaker> shared with every task waker *)
   c_names : list nat;            (* names under which the harness holds this command's AbortHandle *)
+  c_task0 : nat;                 (* uid of the task created by Command::new: it shares the command's abort flag *)
   c_epoch : nat                  (* which top-level construction this command belongs to (its root's id):
                                     an abort through a name reaches the handles that existed when it was called *)
 }.
-Definition cmd0 := mkCmd false [] [] [] 0 0 [] [] None [] 0.
+Definition cmd0 := mkCmd false [] [] [] 0 0 [] [] None [] 0 0.
 
 Record heap := mkH {
   chans : list chan; tfl : list tflag; cmds : list cmdst;
@@ -108,13 +109,13 @@ Definition B_SendClosed := 10.
 Definition B_HostDone := 11.
 
 (* field setters *)
-Definition set_ready l (c : cmdst) := mkCmd (c_alive c) l (c_spawnq c) (c_ent c) (c_next c) (c_len c) (c_eff c) (c_evs c) (c_atomic c) (c_names c) (c_epoch c).
-Definition set_spawnq l (c : cmdst) := mkCmd (c_alive c) (c_ready c) l (c_ent c) (c_next c) (c_len c) (c_eff c) (c_evs c) (c_atomic c) (c_names c) (c_epoch c).
-Definition set_eff l (c : cmdst) := mkCmd (c_alive c) (c_ready c) (c_spawnq c) (c_ent c) (c_next c) (c_len c) l (c_evs c) (c_atomic c) (c_names c) (c_epoch c).
-Definition set_evs l (c : cmdst) := mkCmd (c_alive c) (c_ready c) (c_spawnq c) (c_ent c) (c_next c) (c_len c) (c_eff c) l (c_atomic c) (c_names c) (c_epoch c).
-Definition set_atomic a (c : cmdst) := mkCmd (c_alive c) (c_ready c) (c_spawnq c) (c_ent c) (c_next c) (c_len c) (c_eff c) (c_evs c) a (c_names c) (c_epoch c).
-Definition set_alive b (c : cmdst) := mkCmd b (c_ready c) (c_spawnq c) (c_ent c) (c_next c) (c_len c) (c_eff c) (c_evs c) (c_atomic c) (c_names c) (c_epoch c).
-Definition set_slab ent nx len (c : cmdst) := mkCmd (c_alive c) (c_ready c) (c_spawnq c) ent nx len (c_eff c) (c_evs c) (c_atomic c) (c_names c) (c_epoch c).
+Definition set_ready l (c : cmdst) := mkCmd (c_alive c) l (c_spawnq c) (c_ent c) (c_next c) (c_len c) (c_eff c) (c_evs c) (c_atomic c) (c_names c) (c_task0 c) (c_epoch c).
+Definition set_spawnq l (c : cmdst) := mkCmd (c_alive c) (c_ready c) l (c_ent c) (c_next c) (c_len c) (c_eff c) (c_evs c) (c_atomic c) (c_names c) (c_task0 c) (c_epoch c).
+Definition set_eff l (c : cmdst) := mkCmd (c_alive c) (c_ready c) (c_spawnq c) (c_ent c) (c_next c) (c_len c) l (c_evs c) (c_atomic c) (c_names c) (c_task0 c) (c_epoch c).
+Definition set_evs l (c : cmdst) := mkCmd (c_alive c) (c_ready c) (c_spawnq c) (c_ent c) (c_next c) (c_len c) (c_eff c) l (c_atomic c) (c_names c) (c_task0 c) (c_epoch c).
+Definition set_atomic a (c : cmdst) := mkCmd (c_alive c) (c_ready c) (c_spawnq c) (c_ent c) (c_next c) (c_len c) (c_eff c) (c_evs c) a (c_names c) (c_task0 c) (c_epoch c).
+Definition set_alive b (c : cmdst) := mkCmd b (c_ready c) (c_spawnq c) (c_ent c) (c_next c) (c_len c) (c_eff c) (c_evs c) (c_atomic c) (c_names c) (c_task0 c) (c_epoch c).
+Definition set_slab ent nx len (c : cmdst) := mkCmd (c_alive c) (c_ready c) (c_spawnq c) ent nx len (c_eff c) (c_evs c) (c_atomic c) (c_names c) (c_task0 c) (c_epoch c).
 
 (* ---------- slab 0.4.9 ---------- *)
 Definition slab_insert (t : trec) (c : cmdst) : nat * cmdst :=
@@ -190,7 +191,7 @@ Definition fs_of (en : env) (t : task) := mkF en (LRun t) [].
 Definition new_cmd (names : list nat) (ep : option nat) (en : env) (main : task) (extra : list task) (H : heap) : nat * heap :=
   let (u0, H1) := new_tflag H in
   let cid := length (cmds H1) in
-  let c := mkCmd true [0] [] [Occ (mkT u0 (fs_of en main))] 1 1 [] [] None names (match ep with Some e => e | None => cid end) in
+  let c := mkCmd true [0] [] [Occ (mkT u0 (fs_of en main))] 1 1 [] [] None names u0 (match ep with Some e => e | None => cid end) in
   let H2 := mkH (chans H1) (tfl H1) (cmds H1 ++ [c]) (woken H1) (xready H1) (aborted H1) (log H1) in
   let H3 := fold_left (fun Hh t => let (u, Hh') := new_tflag Hh in
                ucmd cid (fun cm => set_spawnq (c_spawnq cm ++ [mkT u (fs_of en t)]) cm) Hh') extra H2 in
@@ -294,6 +295,7 @@ Definition poll_body (F : rtfuns) (c : nat) (w : waker) (fs : fstate) (H : heap)
     | TAbortT h k => rpoll F c w (mkF en (LRun k) st)
                        (utf (getd 0 h en) (fun tf => mkTF (tf_fin tf) true (tf_alive tf) (tf_joinw tf)) H)
     | TYield n k => rpoll F c w (mkF en (LYield n k) st) H
+    | TAbortC n k => rpoll F c w (mkF en (LRun k) st) (add_aborted n H)
     | TBoth tg1 e1 x1 tg2 e2 x2 k =>
         let (ch1, H1) := new_chan H in let (ch2, H2) := new_chan H1 in
         rpoll F c w (mkF en (LBoth (SQ false false tg1 (eval en e1) ch1) (SQ false false tg2 (eval en e2) ch2) x1 x2 k) st) H2
@@ -418,7 +420,9 @@ Definition run_task_body (F : rtfuns) (cid slot : nat) (H : heap) : option (tsta
   match slab_get slot (gcmd cid H) with
   | None => Some (Missing, note B_Missing H)
   | Some t =>
-    if tf_abort (gtf (t_uid t) H) then Some (Completed, note B_AbortedBeforePoll H) else
+    (* task.is_aborted(): its own flag, or - for the task made by Command::new - the command's flag *)
+    if tf_abort (gtf (t_uid t) H) || (Nat.eqb (t_uid t) (c_task0 (gcmd cid H)) && was_aborted cid H)
+    then Some (Completed, note B_AbortedBeforePoll H) else
     let g := length (woken H) in
     let H1 := mkH (chans H) (tfl H) (cmds H) (woken H ++ [false]) (xready H) (aborted H) (log H) in
     match rpoll F cid (WCmd cid slot g) (t_fs t) H1 with
